@@ -101,6 +101,10 @@ func splitFunc(ctx *flags.Context) error {
 				if tail < head {
 					head = tail
 				}
+				// The end of a circular sequence is its start.
+				if top == gts.Circular && gts.Len(seq) > 0 {
+					head %= gts.Len(seq)
+				}
 				unique[head] = nil
 			}
 
